@@ -65,3 +65,7 @@ int c01_c_hlist_entries(struct hlist_head *h, int *out, int max)
     }
     return n;
 }
+
+#define IDIOM(name) c01_c_##name
+#define IDIOM_LINKAGE
+#include "C01_idioms.inc"
